@@ -616,10 +616,28 @@ def rebuild(run, prog):
     return run
 
 
-def execute(prog, failpoint_k=None, max_cycles=None, foreign_task=False, reuse=None):
+def rerun(run, do_kwa):
+    """Run the SAME Doist object (and its doer objects) a second time: fresh trace, scripts rewound, the Doist keeps
+    whatever the first run left in it (tyme, limit, doers). do_kwa are the arguments of the second do()/ado() call."""
+    run.trace = []
+    run.cycles = 0
+    run.total_steps = 0
+    run.finished = False
+    run.result = None
+    for st in run.state.values():
+        st.__init__()
+    run.do_kwa = dict(do_kwa)
+    return run
+
+
+def execute(prog, failpoint_k=None, max_cycles=None, foreign_task=False, reuse=None, again=None, again_kwa=None):
     """Build and run a program. Returns the Run (trace, states, result).
-    reuse=<earlier Run>: run the same doer objects again under a new Doist built from `prog` settings."""
-    run = rebuild(reuse, prog) if reuse is not None else build(prog)
+    reuse=<earlier Run>: run the same doer objects again under a new Doist built from `prog` settings.
+    again=<earlier Run>: run the same Doist object again with the call arguments again_kwa."""
+    if again is not None:
+        run = rerun(again, again_kwa or {})
+    else:
+        run = rebuild(reuse, prog) if reuse is not None else build(prog)
     if max_cycles:
         run.max_cycles = max_cycles
     _current["run"] = run
